@@ -411,6 +411,10 @@ func createBuilderData(info *nfpm.Info, sizep *int64) func(tw *tar.Writer) error
 func createFilesInsideTarGz(info *nfpm.Info, tw *tar.Writer, sizep *int64) (err error) {
 	for _, file := range info.Contents {
 		file.Destination = files.AsRelativePath(file.Destination)
+		if file.Destination == "" {
+			// the root directory itself: it has no name inside the archive
+			continue
+		}
 
 		switch file.Type {
 		case files.TypeDir, files.TypeImplicitDir:
